@@ -26,7 +26,7 @@ def run(ctx, cmd, **kw):
     r = subprocess.run(cmd, shell=True, cwd=ctx.root, env=ctx.env, capture_output=True, text=True, **kw)
     return r
 
-def harness(ctx, level, seed, n, outdir, extra=''):
+def harness(ctx, level, seed, n, outdir, extra='', corpus=None):
     os.makedirs(outdir, exist_ok=True)
     for f in ('cases.txt', 'impl.txt', 'model.txt', 'stats.txt'):
         try: os.remove(os.path.join(outdir, f))
@@ -34,6 +34,25 @@ def harness(ctx, level, seed, n, outdir, extra=''):
     r = run(ctx, f'timeout 3000 ./harness/bin/harness {level} {seed} {n} {outdir} {extra}')
     if r.returncode != 0:
         return r
+    # corpus: recorded histories (witnesses of findings, regressions of repaired defects, seeded
+    # changes that random generation found) are replayed on the implementation with every run
+    cdir = os.path.join(ctx.root, 'corpus', corpus or '-')
+    if corpus and os.path.isdir(cdir):
+        files = sorted(f for f in os.listdir(cdir) if f.endswith('.txt'))
+        if files:
+            sub = os.path.join(outdir, 'corpus'); os.makedirs(sub, exist_ok=True)
+            with open(os.path.join(sub, 'in.txt'), 'w') as w:
+                for f in files:
+                    for l in open(os.path.join(cdir, f)):
+                        if l.strip() and not l.startswith('#'):
+                            w.write(l if l.endswith('\n') else l + '\n')
+            rr = run(ctx, f'timeout 3000 ./harness/bin/harness replay {sub}/in.txt 0 {sub}')
+            if rr.returncode != 0:
+                rr.stderr = 'corpus replay: ' + (rr.stderr or rr.stdout)
+                return rr
+            for nm in ('cases.txt', 'impl.txt'):
+                with open(os.path.join(outdir, nm), 'a') as w:
+                    w.write(open(os.path.join(sub, nm)).read())
     r2 = run(ctx, f'timeout 3000 ./oracle/oracle < {outdir}/cases.txt > {outdir}/model.txt')
     if r2.returncode != 0:
         r2.stderr = 'oracle: ' + r2.stderr
@@ -142,7 +161,7 @@ def l1_suite(modes, quick=250, thorough=6000, monitor=None, name='l1'):
                      'non-trivial = distinct history with at least one commit and one of (merge of >=2 versions, tombstone, history deletion)')
         outdir = os.path.join(ctx.out, f'{name}-{ctx.prop}')
         n = ctx.n(quick, thorough)
-        r = harness(ctx, {'l1c': 'l1c', 'l1f': 'l1f'}.get(name, 'l1'), ctx.seed_for(name), n, outdir, ' '.join(modes))
+        r = harness(ctx, {'l1c': 'l1c', 'l1f': 'l1f'}.get(name, 'l1'), ctx.seed_for(name), n, outdir, ' '.join(modes), corpus=name)
         if r.returncode != 0:
             res.mismatches.append(dict(suite=res.name, case='harness failed', impl=(r.stderr or r.stdout)[-2000:], model=''))
             return res
@@ -272,7 +291,7 @@ def l2_suite(profile, quick=60, thorough=1500, native=True, name=None, extra_mon
                      + '; non-trivial = distinct program with at least one successful write and one non-empty SELECT')
         outdir = os.path.join(ctx.out, f'{nm}-{ctx.prop}')
         n = ctx.n(quick, thorough)
-        r = harness(ctx, 'l2', ctx.seed_for(nm), n, outdir, profile)
+        r = harness(ctx, 'l2', ctx.seed_for(nm), n, outdir, profile, corpus=nm)
         if r.returncode != 0:
             res.mismatches.append(dict(suite=res.name, case='harness failed', impl=(r.stderr or r.stdout)[-2000:], model=''))
             return res
@@ -315,7 +334,7 @@ def l2_suite(profile, quick=60, thorough=1500, native=True, name=None, extra_mon
                     break
             # --- native reference (the property itself for a single writer)
             for j, (s3, nat) in enumerate(pairs):
-                if nat is None:
+                if nat is None or not native:
                     continue
                 s3c = s3[:s3.index('M')] if 'M' in s3 else s3
                 if s3c == nat:
@@ -543,25 +562,78 @@ def parse_sql_kinds(case):
 def ro_connections(case):
     return {o[1] for o in parse_sql_kinds(case) if o[0] == 'create' and o[2] == 't'}
 
+def tie_keys(case):
+    """keys written at one write time through two different connections: the merged value of such a
+    key depends on the order in which versions are merged (ties are outside the documented rule;
+    C01/C02 state it for distinct times), so two opens may legitimately disagree on it"""
+    wt, seen, ties = {}, {}, set()
+    for o in parse_sql_ops(case):
+        if o[0] == 'wt':
+            wt[o[1]] = o[3]
+        elif o[0] in ('ins', 'upd', 'del'):
+            t = wt.get(o[1], 0)
+            prev = seen.setdefault((o[2], t), o[1])
+            if prev != o[1] or t == 0:
+                ties.add(o[2])
+    return ties
+
+def vacuum_ops(case):
+    """(op index, conn, vacuumer's sources, order of the fresh reader before) per vacuum op"""
+    out = []
+    t = case.split()
+    # reuse the op walker of parse_sql_kinds for positions
+    for j, o in enumerate(parse_sql_kinds(case)):
+        if o[0] == 'vacuum':
+            out.append((j, o[1]))
+    return out
+
+def rows_by_key(toks):
+    rows = split_rows(['S'] + toks)
+    if rows is None:
+        return None
+    return {r[0]: r[1:] for r in rows}
+
 def c09_monitor(ctx, res, case, impl_line, model_line, spec):
     """vacuum leaves the visible rows unchanged (same connection, fresh connection) and every
     remaining version readable"""
+    ties = None
     for j, toks in enumerate(l2_ops(impl_line)):
         if 'VB' not in toks or 'VA' not in toks:
             continue
         vb, va, vf0, vf, rw = toks.index('VB'), toks.index('VA'), toks.index('VF0'), toks.index('VF'), toks.index('RW')
         before, after, fresh0, fresh, reach = toks[vb + 1:va], toks[va + 1:vf0], toks[vf0 + 1:vf], toks[vf + 1:rw], toks[rw + 1:rw + 2]
         res.vacuums = getattr(res, 'vacuums', 0) + 1
-        what = None
+        what, shape = None, None
         if before != after:
             what = 'rows visible through the vacuuming connection changed'
         elif fresh != fresh0:
-            what = 'a connection opened after the vacuum sees different rows than one opened just before it'
+            r0, r1, rb = rows_by_key(fresh0), rows_by_key(fresh), rows_by_key(before)
+            if r0 is None or r1 is None or rb is None:
+                what = 'a connection opened around the vacuum cannot read the table'
+            else:
+                if ties is None:
+                    ties = tie_keys(case)
+                diff = [k for k in set(r0) | set(r1) if r0.get(k) != r1.get(k) and k not in ties]
+                if diff:
+                    what = 'a connection opened after the vacuum sees different rows than one opened just before it'
+                    # finding F-C09-1: every differing row was invisible before (deleted), was
+                    # invisible to the vacuuming connection too, and is visible afterwards
+                    if all(k not in r0 and k in r1 and k not in rb for k in diff):
+                        shape = 'vacuum_purges_delete_marker_older_unmerged_write'
+                else:
+                    res.stats_tie_excused = getattr(res, 'stats_tie_excused', 0) + 1
         elif reach != ['ok']:
             what = 'a remaining version refers to a deleted or unreadable object: ' + ' '.join(reach)
         if what:
-            res.property_failures.append(dict(suite=res.name, case=case, op_index=j + 1, what=what,
-                                              before=' '.join(before)[:600], after=' '.join(after)[:600], fresh=' '.join(fresh)[:600]))
+            m = dict(suite=res.name, case=case, op_index=j + 1, what=what,
+                     before=' '.join(before)[:600], after=' '.join(after)[:600], fresh_before=' '.join(fresh0)[:600], fresh=' '.join(fresh)[:600])
+            kid = known_match(ctx, shape) if shape else None
+            if shape and ctx.prop not in ('C09', 'C10'):
+                return
+            if kid:
+                m['finding'] = kid; res.known_hits.append(m)
+            else:
+                res.property_failures.append(m)
             return
 
 def c15_monitor(ctx, res, case, impl_line, model_line, spec):
